@@ -1417,7 +1417,11 @@ impl Typer {
         for param in params.iter() {
             let name_str = self.hir_table.local_ident_name(param.name);
             let param_ty = match &param.ty {
-                Some(ty) => tast::Ty::from_hir(genv, ty, &current_tparams_env),
+                Some(ty) => {
+                    let t = tast::Ty::from_hir(genv, ty, &current_tparams_env);
+                    validate_annotation(genv, diagnostics, &t, &current_tparams_env);
+                    t
+                }
                 None => self.fresh_ty_var(),
             };
             local_env.insert_var(param.name, param_ty.clone());
@@ -1468,10 +1472,11 @@ impl Typer {
 
                 for (param, expected_param_ty) in params.iter().zip(expected_params.iter()) {
                     let name_str = self.hir_table.local_ident_name(param.name);
-                    let annotated_ty = param
-                        .ty
-                        .as_ref()
-                        .map(|ty| tast::Ty::from_hir(genv, ty, &current_tparams_env));
+                    let annotated_ty = param.ty.as_ref().map(|ty| {
+                        let t = tast::Ty::from_hir(genv, ty, &current_tparams_env);
+                        validate_annotation(genv, diagnostics, &t, &current_tparams_env);
+                        t
+                    });
 
                     let param_ty = match annotated_ty {
                         Some(ann_ty) => {
@@ -1524,9 +1529,11 @@ impl Typer {
         value: hir::ExprId,
     ) -> tast::Expr {
         let current_tparams_env = local_env.current_tparams_env();
-        let annotated_ty = annotation
-            .as_ref()
-            .map(|ty| tast::Ty::from_hir(genv, ty, &current_tparams_env));
+        let annotated_ty = annotation.as_ref().map(|ty| {
+            let t = tast::Ty::from_hir(genv, ty, &current_tparams_env);
+            validate_annotation(genv, diagnostics, &t, &current_tparams_env);
+            t
+        });
 
         let (value_tast, value_ty) = if let Some(ann_ty) = &annotated_ty {
             (
@@ -1610,9 +1617,11 @@ impl Typer {
         _expected: &tast::Ty,
     ) -> tast::Expr {
         let current_tparams_env = local_env.current_tparams_env();
-        let annotated_ty = annotation
-            .as_ref()
-            .map(|ty| tast::Ty::from_hir(genv, ty, &current_tparams_env));
+        let annotated_ty = annotation.as_ref().map(|ty| {
+            let t = tast::Ty::from_hir(genv, ty, &current_tparams_env);
+            validate_annotation(genv, diagnostics, &t, &current_tparams_env);
+            t
+        });
 
         let (value_tast, value_ty) = if let Some(ann_ty) = &annotated_ty {
             (
@@ -2923,6 +2932,16 @@ impl Typer {
         self.push_constraint(Constraint::TypeEqual(pat_ty.clone(), ty.clone()));
         tast::Pat::PWild { ty: pat_ty }
     }
+}
+
+fn validate_annotation(
+    genv: &PackageTypeEnv,
+    diagnostics: &mut Diagnostics,
+    ty: &tast::Ty,
+    tparams_env: &[tast::TastIdent],
+) {
+    let names = tparams_env.iter().map(|t| t.0.clone()).collect();
+    super::util::validate_ty(genv, diagnostics, ty, &names);
 }
 
 fn is_concrete_dyn_target(ty: &tast::Ty) -> bool {
